@@ -12,8 +12,9 @@ Ints == << V("int", "-3", -3000000, 0, <<>>), V("int", "0", 0, 0, <<>>), V("int"
            V("int", "12", 12000000, 0, <<>>), V("int", "100", 100000000, 0, <<>>) >>
 Decs == << V("float", "0.5", 500000, 1, <<>>), V("float", "1.5", 1500000, 1, <<>>), V("float", "2.25", 2250000, 2, <<>>),
            V("float", "0.125", 125000, 3, <<>>), V("float", "-1.5", -1500000, 1, <<>>) >>
-Strs == << V("str", "a", 0, 0, <<97>>), V("str", "b", 0, 0, <<98>>), V("str", "ab", 0, 0, <<97,98>>), V("str", "B", 0, 0, <<66>>),
-           V("str", "\"a b\"", 0, 0, <<97,32,98>>), V("str", "\"it's\"", 0, 0, <<105,116,39,115>>),
+Strs == << V("str", "a", 0, 0, <<97>>), V("str", "b", 0, 0, <<98>>), V("str", "\"it's\"", 0, 0, <<105,116,39,115>>),
+           V("str", "\"x''y\"", 0, 0, <<120,39,39,121>>), V("str", "ab", 0, 0, <<97,98>>), V("str", "B", 0, 0, <<66>>),
+           V("str", "\"a b\"", 0, 0, <<97,32,98>>),
            V("str", "\"a,b\"", 0, 0, <<97,44,98>>), V("str", "x_y", 0, 0, <<120,95,121>>), V("str", "\"10\"", 0, 0, <<49,48>>) >>
 Star == V("star", "*", 0, 0, <<42>>)
 \* wildcard patterns: 42 = *  63 = ?
@@ -27,7 +28,7 @@ Small(s) == IF Tier = "quick" THEN SubSeq(s, 1, IF Len(s) > 4 THEN 4 ELSE Len(s)
 NumProbes == << -4000000, -3000000, -2999000, -1500000, -1499000, -1000000, 0, 1000, 124000, 125000, 126000, 120000, 130000,
                 500000, 1000000, 1500000, 2240000, 2250000, 2260000, 4999000, 5000000, 5001000, 11000000, 12000000,
                 13000000, 99000000, 100000000, 101000000 >>
-StrProbes == << <<>>, <<65>>, <<66>>, <<97>>, <<97,32>>, <<97,32,98>>, <<97,44,98>>, <<97,97>>, <<97,98>>, <<97,98,99>>, <<98>>, <<99>>,
+StrProbes == << <<120,39,39,121>>, <<120,39,121>>, <<>>, <<65>>, <<66>>, <<97>>, <<97,32>>, <<97,32,98>>, <<97,44,98>>, <<97,97>>, <<97,98>>, <<97,98,99>>, <<98>>, <<99>>,
                 <<105,116,39,115>>, <<120>>, <<120,121>>, <<120,97,121>>, <<120,95,121>>, <<120,46,121>>, <<120,122,121>>, <<97,120>>, <<121,120>>,
                 <<97,95,98>>, <<97,88,98>>, <<97,88,98,99>>, <<49>>, <<49,48>>, <<57>>, <<42>>, <<120,121,122,121>> >>
 ProbeVals(ty) == IF ty = "str" THEN [i \in DOMAIN StrProbes |-> [ty |-> "str", n |-> 0, codes |-> StrProbes[i]]]
